@@ -101,6 +101,43 @@ def _inner_loops(fn: ast.FunctionDef) -> List[Tuple[ast.For, ast.For]]:
     return out
 
 
+def _freed_slot_indexing(rep, P: str, rel: str, construct: str, fn: ast.FunctionDef):
+    """A rebuild pass that indexes the module table with a link value that may be -1 (freed slot) reads modules[-1];
+    that is harmless only after the trailing empty positions have been dropped (otherwise it is None and loading raises)."""
+    body = fn.body
+    trim_at = None
+    for i, st in enumerate(body):
+        if isinstance(st, ast.While) and any(isinstance(c, ast.Call) and norm(c.func) == "self.object.modules.pop" for c in ast.walk(st)):
+            trim_at = i if trim_at is None else trim_at
+    for i, st in enumerate(body):
+        if not isinstance(st, ast.For):
+            continue
+        for inner in [n for n in ast.walk(st) if isinstance(n, ast.For) and n is not st]:
+            ivars = {n.id for n in ast.walk(inner.target) if isinstance(n, ast.Name)}
+            for sub in ast.walk(inner):
+                if isinstance(sub, ast.Subscript) and norm(sub.value) == "self.object.modules" and isinstance(sub.slice, ast.Name) \
+                        and sub.slice.id in ivars and isinstance(sub.ctx, ast.Load):
+                    v = sub.slice.id
+                    # guarded: an earlier statement of the loop body leaves the iteration when v == -1
+                    guarded = False
+                    for s2 in inner.body:
+                        if s2.lineno >= sub.lineno:
+                            break
+                        if isinstance(s2, ast.If) and norm(s2.test) in (f"{v} == -1", f"{v} < 0", f"-1 == {v}") \
+                                and isinstance(s2.body[-1], (ast.Continue, ast.Break, ast.Return)):
+                            guarded = True
+                    if guarded:
+                        rep.ok(f"{P}.R2", construct, f"modules[{v}]", "freed slots (-1) are skipped before the table is indexed")
+                    elif trim_at is not None and trim_at < i:
+                        rep.ok(f"{P}.R2", construct, f"modules[{v}] after the trailing-empty trim",
+                               "for a freed slot modules[-1] is the last real module and the entry is ignored")
+                    else:
+                        rep.violation(f"{P}.R2", construct, norm(sub),
+                                      f"`{v}` can be -1 (freed slot) here and modules[-1] is read before trailing empty positions are "
+                                      "dropped: a file that ends with an empty module position and has a freed link slot fails to load",
+                                      f"{rel}:{sub.lineno}")
+
+
 def rebuild_rules(repo: Repo, rep, P: str):
     sv = repo.cls("SunVoxReader", module="rv.readers.sunvox")
     fn = repo.own_method(sv, "process_end_of_file")
@@ -109,6 +146,7 @@ def rebuild_rules(repo: Repo, rep, P: str):
     rep.func("rv.readers.sunvox.SunVoxReader.process_end_of_file")
     loops = _inner_loops(fn)
     rep.count("rebuild_link_loops", len(loops), 2)
+    _freed_slot_indexing(rep, P, rel, construct, fn)
     if len(loops) < 2:
         rep.violation(f"{P}.R2", construct, "rebuild passes", "the end-of-file pass that rebuilds missing slots and outgoing tables is gone",
                       f"{rel}:{fn.lineno}")
